@@ -517,7 +517,7 @@ class C10(Prop):
                "verif::container_block / verif::skip_string; the unchecked walkers themselves (get_from_object / get_from_array with get_next_token) are "
                "modelled in Impl/GetU, proved to find exactly what the specification's lookup finds whenever what they pass over is well-formed "
                "(unchecked_get_eq_lookup, unchecked_get_agrees_with_checked), and compared with get_unchecked on every case of the stream; the "
-               "unchecked iterators (skip_one_unchecked, skip_number_unsafe) are tied by correspondence only (C12)"]
+               "unchecked iterators (skip_one_unchecked, skip_number_unsafe) are modelled and proved in C12"]
     assumptions = ["documents are duplicate-free except the explicit first-member-wins cases"]
     CHECKED = ["get", "get_slice", "get_bytes", "get_str", "get_string", "get_faststr"]
     UNCHECKED = ["getu", "getu_str"]
@@ -721,6 +721,13 @@ class C12(Prop):
                 # model vs spec (the theorem, observed) on valid UTF-8: same items, END iff END
                 if M.get("utf8") == "A" and (mitems, mend == "END") != (sitems, send == "END"):
                     res.model_disagreements.append(dict(key=f"c12:model-vs-spec:{kind}", case=case, detail=f"{M[f'm.{kind}']} vs {M[f'spec.{kind}']}"))
+                # correspondence: the model of the unchecked iterator (skip_one_unchecked: block skippers, skip_number_unsafe) vs the real one
+                ufld = f"{kind}_u"
+                if wf and ufld in I and f"mu.{kind}" in M and I[ufld] not in ("PANIC", "notarr", "notobj", "R"):
+                    ui, ue, _x = I[ufld].split("|")
+                    mi, me = M[f"mu.{kind}"].split("|")
+                    if (ui, ue == "END") != (mi, me == "END"):
+                        res.model_disagreements.append(dict(key=f"c12:unchecked-iterator-model:{kind}", case=case, detail=f"impl {I[ufld][:150]} model {M[f'mu.{kind}'][:150]}"))
                 for fld in fields + (ufields if wf else []):
                     if fld not in I:
                         continue
